@@ -33,6 +33,53 @@ structure Pres (o : Opt) (P : CS → Prop) : Prop where
 structure PresA (o : Opt) (glob : Hash → St) (P : CS → Prop) : Prop extends Pres o P where
   place : ∀ c j h, P c → PGuard o c j h (glob h) → P (place 0 c j h (glob h))
 
+/-- `r` has room for a target of sizes `a`, `b` -/
+def FitB (o : Opt) (r : Rt) (a b : Int) : Prop :=
+  (o.maxHead ≠ 0 → r.head + a < o.maxHead) ∧ r.proc + b < o.maxProc
+
+/-- what is *additionally* known at a `transferTarget` call site: the source of a relief move
+    satisfies `Q1` / `Q2` (instantiated with "its process / head trigger fired"), a scale-down move happens under `D`
+    (instantiated with "scale-down is switched on"), and relief / first-fit scale-down take the
+    first shard in slice order that has room -/
+def XGuard (o : Opt) (Q1 Q2 : Rt → Prop) (D : Prop) (k : Nat) (c : CS) (i j : Nat) (h : Hash) : Prop :=
+  ∀ f tar, c.shards[i]? = some f → f.scraping.get h = some tar →
+    (k = 1 → Q1 f.rt) ∧ (k = 2 → Q2 f.rt ∧ o.maxHead ≠ 0) ∧ (k = 3 → D) ∧
+    ((k = 1 ∨ k = 2 ∨ Gen.firstFit o = true) → ∀ j' s', j' < j → j' ≠ i → c.shards[j']? = some s' →
+      s'.changeable = true → ¬ FitB o s'.rt tar.series tar.total)
+
+/-- like `Pres`, for invariants that need `XGuard` as well -/
+structure PresX (o : Opt) (Q1 Q2 : Rt → Prop) (D : Prop) (P : CS → Prop) : Prop where
+  transfer : ∀ k c i j h, P c → TGuard o k c i j h → XGuard o Q1 Q2 D k c i j h → P (transfer k c i j h)
+  crash : ∀ c, P c → P { c with crashed := true }
+
+structure PresAX (o : Opt) (Q1 Q2 : Rt → Prop) (D : Prop) (glob : Hash → St) (P : CS → Prop) : Prop
+    extends PresX o Q1 Q2 D P where
+  place : ∀ c j h, P c → PGuard o c j h (glob h) → P (place 0 c j h (glob h))
+
+theorem Pres.toX {o : Opt} {P : CS → Prop} (hp : Pres o P) (Q1 Q2 : Rt → Prop) (D : Prop) : PresX o Q1 Q2 D P :=
+  ⟨fun k c i j h hc hg _ => hp.transfer k c i j h hc hg, hp.crash⟩
+
+theorem PresA.toAX {o : Opt} {glob : Hash → St} {P : CS → Prop} (hp : PresA o glob P) (Q1 Q2 : Rt → Prop) (D : Prop) :
+    PresAX o Q1 Q2 D glob P :=
+  ⟨hp.toPres.toX Q1 Q2 D, hp.place⟩
+
+/-- position facts about an element found in an indexed list -/
+theorem zipIdx_split {α} {ss : List α} {l₁ l₂ : List (α × Nat)} {a : α} {idx : Nat}
+    (h : ss.zipIdx = l₁ ++ (a, idx) :: l₂) :
+    idx = l₁.length ∧ ∀ j' s', j' < l₁.length → ss[j']? = some s' → (s', j') ∈ l₁ := by
+  constructor
+  · have h1 : (ss.zipIdx)[l₁.length]? = some (a, idx) := by
+      rw [h, List.getElem?_append_right (Nat.le_refl _)]; simp
+    rw [List.getElem?_zipIdx] at h1
+    cases hs : ss[l₁.length]? with
+    | none => simp [hs] at h1
+    | some x => simp [hs] at h1; exact h1.2.symm
+  · intro j' s' hlt hs'
+    have h1 : (ss.zipIdx)[j']? = some (s', j') := by
+      rw [List.getElem?_zipIdx, hs']; simp
+    rw [h, List.getElem?_append_left hlt] at h1
+    exact List.mem_of_getElem? h1
+
 /-- the source of a transfer keeps its `changeable` flag -/
 theorem transfer_src_changeable (k : Nat) (c : CS) (i j : Nat) (h : Hash)
     (hsrc : ∀ s, c.shards[i]? = some s → s.changeable = true) :
@@ -53,8 +100,77 @@ theorem transfer_src_changeable (k : Nat) (c : CS) (i j : Nat) (h : Hash)
       exact hsrc f hf
   · exact hsrc
 
+/-- the source of a transfer keeps its `changeable` flag and its load -/
+theorem transfer_src_keep (R : Bool → Rt → Prop) (k : Nat) (c : CS) (i j : Nat) (h : Hash)
+    (hsrc : ∀ s, c.shards[i]? = some s → R s.changeable s.rt) :
+    ∀ s, (transfer k c i j h).shards[i]? = some s → R s.changeable s.rt := by
+  unfold transfer
+  split
+  · rename_i f t hf ht
+    split
+    · exact hsrc
+    · rename_i tar htar
+      intro s hs
+      simp only at hs
+      obtain ⟨b', hb'⟩ := getElem?_set_some (j := j) (a := ({ t with
+          rt := { t.rt with proc := Gen.transferProc t.rt tar, head := Gen.transferHead t.rt tar },
+          scraping := t.scraping.set h tar } : SI)) hf
+      rw [getElem?_set_self' hb'] at hs
+      cases hs
+      by_cases hij : j = i
+      · subst hij
+        rw [getElem?_set_self' hf] at hb'
+        cases hb'
+        -- i = j: the entry written last is the source's
+        exact hsrc f hf
+      · rw [getElem?_set_ne' hij] at hb'
+        exact hsrc f hf
+  · exact hsrc
+
+theorem firstDst_first {ss : List SI} {i j : Nat} {cond : SI → Bool} (h : firstDst ss i cond = some j) :
+    ∀ j' s', j' < j → ss[j']? = some s' → ¬ (s'.changeable = true ∧ j' ≠ i ∧ cond s' = true) := by
+  unfold firstDst at h
+  rw [List.findSome?_eq_some_iff] at h
+  obtain ⟨l₁, ⟨a, idx⟩, l₂, hl, ha, hnone⟩ := h
+  obtain ⟨hidx, hmem⟩ := zipIdx_split hl
+  simp only at ha
+  split at ha
+  · simp only [Option.some.injEq] at ha
+    intro j' s' hlt hs' ⟨h1, h2, h3⟩
+    have := hnone (s', j') (hmem j' s' (by omega) hs')
+    simp [h1, h2, h3] at this
+  · cases ha
+
+theorem getFreeShard_first {o : Opt} {ss : List SI} {n : Nat} {sp : Space} {picks picks' : List Nat} {j : Nat}
+    (hff : Gen.firstFit o = true) (h : getFreeShard o ss n sp picks = (.some j, picks')) :
+    ∀ j' s', j' < j → ss[j']? = some s' → ¬ (s'.changeable = true ∧ Gen.fit o s'.rt sp = true) := by
+  unfold getFreeShard at h
+  split at h
+  · simp at h
+  · rename_i j0 js hc
+    simp only [hff, if_true, Prod.mk.injEq, Pick.some.injEq] at h
+    obtain ⟨rfl, _⟩ := h
+    unfold candidates at hc
+    rw [List.filterMap_eq_cons_iff] at hc
+    obtain ⟨l₁, ⟨a, idx⟩, l₂, hl, hnone, ha, _⟩ := hc
+    obtain ⟨hidx, hmem⟩ := zipIdx_split hl
+    simp only at ha
+    split at ha
+    · simp only [Option.some.injEq] at ha
+      intro j' s' hlt hs' ⟨h1, h2⟩
+      have hlen : j' < (ss.take n).length := by
+        have : (ss.take n).zipIdx.length = l₁.length + 1 + l₂.length := by rw [hl]; simp; omega
+        rw [List.length_zipIdx] at this
+        omega
+      have hs'' : (ss.take n)[j']? = some s' := by
+        rw [List.getElem?_take]; simp only [List.length_take] at hlen
+        rw [if_pos (by omega)]; exact hs'
+      have := hnone (s', j') (hmem j' s' (by omega) hs'')
+      simp [Gen.fitSkip, h1, h2] at this
+    · cases ha
+
 section
-variable {o : Opt} {P : CS → Prop}
+variable {o : Opt} {P : CS → Prop} {Q1 Q2 : Rt → Prop} {D : Prop}
 
 theorem fit_of_opt {o : Opt} {r : Rt} {a b : Int}
     (h : (o.maxHead = 0 ∨ r.head + a < o.maxHead) ∧ r.proc + b < o.maxProc) :
@@ -64,8 +180,8 @@ theorem fit_of_opt {o : Opt} {r : Rt} {a b : Int}
   · exact absurd h0 hne
   · exact h1
 
-theorem apLoop_pres (hp : Pres o P) (i : Nat) (exp : Int) :
-    ∀ (hs : List Hash) (c : CS) (total : Int), (∀ s, c.shards[i]? = some s → s.changeable = true) →
+theorem apLoopX (hp : PresX o Q1 Q2 D P) (i : Nat) (exp : Int) :
+    ∀ (hs : List Hash) (c : CS) (total : Int), (∀ s, c.shards[i]? = some s → s.changeable = true ∧ Q1 s.rt) →
       P c → P (apLoop o i exp hs c total).1 := by
   intro hs
   induction hs with
@@ -88,17 +204,27 @@ theorem apLoop_pres (hp : Pres o P) (i : Nat) (exp : Int) :
             · exact hc
             · split
               · rename_i j hj
-                apply ih _ _ (transfer_src_changeable _ c i j h hsrc)
-                apply hp.transfer 1 c i j h hc
+                apply ih _ _ (transfer_src_keep (fun b r => b = true ∧ Q1 r) _ c i j h hsrc)
                 obtain ⟨s2, hs2, hch, hne, hcond⟩ := firstDst_spec hj
                 have hsk := (not_congr (Sites.apSkip_iff tar)).mp hskip
                 simp only [not_or, Decidable.not_not, Nat.not_lt] at hsk
-                exact ⟨s, s2, tar, hs', hs2, htar, hsrc s hs', hch, hne, hsk.2.1, hsk.2.2.2,
-                  fit_of_opt ((Sites.apDst_iff o s2.rt tar).mp hcond), by simp, Or.inl rfl⟩
+                apply hp.transfer 1 c i j h hc
+                · exact ⟨s, s2, tar, hs', hs2, htar, (hsrc s hs').1, hch, hne, hsk.2.1, hsk.2.2.2,
+                    fit_of_opt ((Sites.apDst_iff o s2.rt tar).mp hcond), by simp, Or.inl rfl⟩
+                · intro f tar' hf htar'
+                  rw [hs'] at hf; cases hf
+                  rw [htar] at htar'; cases htar'
+                  refine ⟨fun _ => (hsrc s hs').2, fun h2 => absurd h2 (by decide), fun h3 => absurd h3 (by decide), fun _ j' s' hlt hne' hs'' hch' hfit => ?_⟩
+                  refine firstDst_first hj j' s' hlt hs'' ⟨hch', hne', ?_⟩
+                  rw [Sites.apDst_iff]
+                  refine ⟨?_, hfit.2⟩
+                  by_cases hz : o.maxHead = 0
+                  · exact Or.inl hz
+                  · exact Or.inr (hfit.1 hz)
               · exact ih c total hsrc hc
 
-theorem ahLoop_pres (hp : Pres o P) (i : Nat) (exp : Int) :
-    ∀ (hs : List Hash) (c : CS) (total : Int), (∀ s, c.shards[i]? = some s → s.changeable = true) →
+theorem ahLoopX (hp : PresX o Q1 Q2 D P) (hh : o.maxHead ≠ 0) (i : Nat) (exp : Int) :
+    ∀ (hs : List Hash) (c : CS) (total : Int), (∀ s, c.shards[i]? = some s → s.changeable = true ∧ Q2 s.rt) →
       P c → P (ahLoop o i exp hs c total).1 := by
   intro hs
   induction hs with
@@ -121,18 +247,25 @@ theorem ahLoop_pres (hp : Pres o P) (i : Nat) (exp : Int) :
             · exact hc
             · split
               · rename_i j hj
-                apply ih _ _ (transfer_src_changeable _ c i j h hsrc)
-                apply hp.transfer 2 c i j h hc
+                apply ih _ _ (transfer_src_keep (fun b r => b = true ∧ Q2 r) _ c i j h hsrc)
                 obtain ⟨s2, hs2, hch, hne, hcond⟩ := firstDst_spec hj
                 have hsk := (not_congr (Sites.ahSkip_iff tar)).mp hskip
                 simp only [not_or, Decidable.not_not, Nat.not_lt] at hsk
                 have hd := (Sites.ahDst_iff o s2.rt tar).mp hcond
-                exact ⟨s, s2, tar, hs', hs2, htar, hsrc s hs', hch, hne, hsk.1, hsk.2.2,
-                  ⟨fun _ => hd.1, hd.2⟩, by simp, Or.inr (Or.inl rfl)⟩
+                apply hp.transfer 2 c i j h hc
+                · exact ⟨s, s2, tar, hs', hs2, htar, (hsrc s hs').1, hch, hne, hsk.1, hsk.2.2,
+                    ⟨fun _ => hd.1, hd.2⟩, by simp, Or.inr (Or.inl rfl)⟩
+                · intro f tar' hf htar'
+                  rw [hs'] at hf; cases hf
+                  rw [htar] at htar'; cases htar'
+                  refine ⟨fun h1 => absurd h1 (by decide), fun _ => ⟨(hsrc s hs').2, hh⟩, fun h3 => absurd h3 (by decide), fun _ j' s' hlt hne' hs'' hch' hfit => ?_⟩
+                  refine firstDst_first hj j' s' hlt hs'' ⟨hch', hne', ?_⟩
+                  rw [Sites.ahDst_iff]
+                  exact ⟨hfit.1 hh, hfit.2⟩
               · exact ih c total hsrc hc
 
-theorem allevProcShard_pres (hp : Pres o P) (exp : Int) (order : List Hash) (c : CS) (i : Nat)
-    (hsrc : ∀ s, c.shards[i]? = some s → s.changeable = true)
+theorem allevProcShardX (hp : PresX o Q1 Q2 D P) (exp : Int) (order : List Hash) (c : CS) (i : Nat)
+    (hsrc : ∀ s, c.shards[i]? = some s → s.changeable = true ∧ Q1 s.rt)
     (hc : P c) : P (allevProcShard o exp order c i).1 := by
   unfold allevProcShard
   split
@@ -140,7 +273,7 @@ theorem allevProcShard_pres (hp : Pres o P) (exp : Int) (order : List Hash) (c :
   · simp only
     split
     · exact hc
-    · have := apLoop_pres hp i exp order c (loadProc ‹SI›) hsrc hc
+    · have := apLoopX hp i exp order c (loadProc ‹SI›) hsrc hc
       generalize apLoop o i exp order c (loadProc ‹SI›) = r at this
       obtain ⟨c', total', aborted⟩ := r
       simp only at this ⊢
@@ -148,8 +281,8 @@ theorem allevProcShard_pres (hp : Pres o P) (exp : Int) (order : List Hash) (c :
       · exact this
       · split <;> exact this
 
-theorem allevHeadShard_pres (hp : Pres o P) (exp : Int) (order : List Hash) (c : CS) (i : Nat)
-    (hsrc : ∀ s, c.shards[i]? = some s → s.changeable = true)
+theorem allevHeadShardX (hp : PresX o Q1 Q2 D P) (hh : o.maxHead ≠ 0) (exp : Int) (order : List Hash) (c : CS) (i : Nat)
+    (hsrc : ∀ s, c.shards[i]? = some s → s.changeable = true ∧ Q2 s.rt)
     (hc : P c) : P (allevHeadShard o exp order c i).1 := by
   unfold allevHeadShard
   split
@@ -157,7 +290,7 @@ theorem allevHeadShard_pres (hp : Pres o P) (exp : Int) (order : List Hash) (c :
   · simp only
     split
     · exact hc
-    · have := ahLoop_pres hp i exp order c (loadHead ‹SI›) hsrc hc
+    · have := ahLoopX hp hh i exp order c (loadHead ‹SI›) hsrc hc
       generalize ahLoop o i exp order c (loadHead ‹SI›) = r at this
       obtain ⟨c', total', aborted⟩ := r
       simp only at this ⊢
@@ -165,7 +298,8 @@ theorem allevHeadShard_pres (hp : Pres o P) (exp : Int) (order : List Hash) (c :
       · exact this
       · split <;> exact this
 
-theorem allevProcAll_pres (hp : Pres o P) (swr : Swr) (orders : List (List Hash)) :
+theorem allevProcAllX (hp : PresX o Q1 Q2 D P) (swr : Swr) (hQp : ∀ r, Gen.procTrigger swr o r = true → Q1 r)
+    (orders : List (List Hash)) :
     ∀ (is : List Nat) (c : CS) (need : Int), P c → P (allevProcAll swr o orders is c need).1 := by
   intro is
   induction is with
@@ -177,16 +311,17 @@ theorem allevProcAll_pres (hp : Pres o P) (swr : Swr) (orders : List (List Hash)
     · exact ih c need hc
     · split
       · rename_i s hs hcond
-        have hsrc : ∀ s', c.shards[i]? = some s' → s'.changeable = true := by
+        have hsrc : ∀ s', c.shards[i]? = some s' → s'.changeable = true ∧ Q1 s'.rt := by
           intro s' hs'; rw [hs] at hs'; cases hs'
-          simp only [Bool.and_eq_true] at hcond; exact hcond.1
-        have := allevProcShard_pres hp (Gen.procExpect swr o) (orderFor orders i) c i hsrc hc
+          simp only [Bool.and_eq_true] at hcond; exact ⟨hcond.1, hQp _ hcond.2⟩
+        have := allevProcShardX hp (Gen.procExpect swr o) (orderFor orders i) c i hsrc hc
         generalize allevProcShard o (Gen.procExpect swr o) (orderFor orders i) c i = r at this
         obtain ⟨c', n⟩ := r
         exact ih c' _ this
       · exact ih c need hc
 
-theorem allevHeadAll_pres (hp : Pres o P) (swr : Swr) (orders : List (List Hash)) :
+theorem allevHeadAllX (hp : PresX o Q1 Q2 D P) (hh : o.maxHead ≠ 0) (swr : Swr)
+    (hQh : ∀ r ex, headThreshold swr o r = some ex → Q2 r) (orders : List (List Hash)) :
     ∀ (is : List Nat) (c : CS) (need : Int), P c → P (allevHeadAll swr o orders is c need).1 := by
   intro is
   induction is with
@@ -198,32 +333,39 @@ theorem allevHeadAll_pres (hp : Pres o P) (swr : Swr) (orders : List (List Hash)
     · exact ih c need hc
     · split
       · split
-        · rename_i s hs hcond _ ex _
-          have hsrc : ∀ s', c.shards[i]? = some s' → s'.changeable = true := by
-            intro s' hs'; rw [hs] at hs'; cases hs'; exact hcond
-          have := allevHeadShard_pres hp (Gen.headExpect swr o ex) (orderFor orders i) c i hsrc hc
+        · rename_i s hs hcond _ ex hex
+          have hsrc : ∀ s', c.shards[i]? = some s' → s'.changeable = true ∧ Q2 s'.rt := by
+            intro s' hs'; rw [hs] at hs'; cases hs'; exact ⟨hcond, hQh _ ex hex⟩
+          have := allevHeadShardX hp hh (Gen.headExpect swr o ex) (orderFor orders i) c i hsrc hc
           generalize allevHeadShard o (Gen.headExpect swr o ex) (orderFor orders i) c i = r at this
           obtain ⟨c', n⟩ := r
           exact ih c' _ this
         · exact ih c need hc
       · exact ih c need hc
 
-theorem alleviate_pres (hp : Pres o P) (swr : Swr) (sc : Sched) (c : CS) (hc : P c) :
+theorem alleviateX (hp : PresX o Q1 Q2 D P) (swr : Swr) (hQp : ∀ r, Gen.procTrigger swr o r = true → Q1 r)
+    (hQh : ∀ r ex, headThreshold swr o r = some ex → Q2 r) (sc : Sched) (c : CS) (hc : P c) :
     P (alleviate swr o sc c).1 := by
   unfold alleviate
   split
   · exact hc
   · simp only
-    have h1 := allevProcAll_pres hp swr sc.allevProc (List.range c.shards.length) c 0 hc
+    have h1 := allevProcAllX hp swr hQp sc.allevProc (List.range c.shards.length) c 0 hc
     generalize allevProcAll swr o sc.allevProc (List.range c.shards.length) c 0 = r1 at h1
     obtain ⟨c1, np⟩ := r1
     simp only at h1 ⊢
     split
-    · have h2 := allevHeadAll_pres hp swr sc.allevHead (List.range c.shards.length) c1 0 h1
+    · rename_i hhe
+      have hh : o.maxHead ≠ 0 := (Sites.headEnabled_iff o).mp hhe
+      have h2 := allevHeadAllX hp hh swr hQh sc.allevHead (List.range c.shards.length) c1 0 h1
       generalize allevHeadAll swr o sc.allevHead (List.range c.shards.length) c1 0 = r2 at h2
       obtain ⟨c2, nh⟩ := r2
       exact h2
     · exact h1
+
+theorem alleviate_pres (hp : Pres o P) (swr : Swr) (sc : Sched) (c : CS) (hc : P c) :
+    P (alleviate swr o sc c).1 :=
+  alleviateX (hp.toX (fun _ => True) (fun _ => True) True) swr (fun _ _ => trivial) (fun _ _ _ => trivial) sc c hc
 
 /-! ### first assignment -/
 
@@ -262,7 +404,9 @@ theorem keysIn_tail {scr : List Hash} {hs : List Hash} {c : CS} {h : Hash}
   · exact Or.inl h1
   · exact Or.inr (fun hm => h1 (List.mem_cons_of_mem _ hm))
 
-theorem assignLoop_pres {glob : Hash → St} (hp : PresA o glob P) (scr : List Hash) :
+theorem assignLoop_pres' {glob : Hash → St}
+    (hplace : ∀ c j h, P c → PGuard o c j h (glob h) → P (place 0 c j h (glob h)))
+    (hcrash : ∀ c, P c → P { c with crashed := true }) (scr : List Hash) :
     ∀ (hs : List Hash) (c : CS) (picks : List Nat) (need : Space), hs.Nodup → KeysIn scr hs c → P c →
       P (assignLoop o scr glob hs c picks need).1 := by
   intro hs
@@ -287,7 +431,7 @@ theorem assignLoop_pres {glob : Hash → St} (hp : PresA o glob P) (scr : List H
             split
             · rename_i j picks' hg
               apply ih _ _ _ hnd'.2 (place_keysIn 0 hq hnd'.1)
-              apply hp.place c j h hc
+              apply hplace c j h hc
               obtain ⟨s, hs, _, hch, hfit⟩ := getFreeShard_some hg
               rw [Sites.spaceOfHead_eq, Sites.spaceOfProc_eq] at hfit
               refine ⟨s, hs, hch, ?_, ?_, ?_, fit_plfits hfit⟩
@@ -302,7 +446,12 @@ theorem assignLoop_pres {glob : Hash → St} (hp : PresA o glob P) (scr : List H
                 simpa using this
               · simpa using hbig
             · exact ih c _ _ hnd'.2 (keysIn_tail hq) hc
-            · exact hp.crash c hc
+            · exact hcrash c hc
+
+theorem assignLoop_pres {glob : Hash → St} (hp : PresA o glob P) (scr : List Hash) :
+    ∀ (hs : List Hash) (c : CS) (picks : List Nat) (need : Space), hs.Nodup → KeysIn scr hs c → P c →
+      P (assignLoop o scr glob hs c picks need).1 :=
+  assignLoop_pres' hp.place hp.crash scr
 
 theorem keysIn_init (c : CS) (hs : List Hash) : KeysIn (scrapingSetOf c.shards) hs c := by
   intro s hs' k v hg
@@ -311,14 +460,20 @@ theorem keysIn_init (c : CS) (hs : List Hash) : KeysIn (scrapingSetOf c.shards) 
   simp only [List.mem_flatten, List.mem_map]
   exact ⟨s.scraping.keys, ⟨s, hs', rfl⟩, AL.get_some_mem_keys _ _ _ hg⟩
 
-theorem assign_pres {glob : Hash → St} (hp : PresA o glob P) (active : List Hash) (sc : Sched) (c : CS)
+theorem assign_pres' {glob : Hash → St}
+    (hplace : ∀ c j h, P c → PGuard o c j h (glob h) → P (place 0 c j h (glob h)))
+    (hcrash : ∀ c, P c → P { c with crashed := true }) (active : List Hash) (sc : Sched) (c : CS)
     (hc : P c) : P (assign o active glob sc c).1 := by
   unfold assign
-  exact assignLoop_pres hp _ _ c _ _ (uniq_nodup _) (keysIn_init c _) hc
+  exact assignLoop_pres' hplace hcrash _ _ c _ _ (uniq_nodup _) (keysIn_init c _) hc
+
+theorem assign_pres {glob : Hash → St} (hp : PresA o glob P) (active : List Hash) (sc : Sched) (c : CS)
+    (hc : P c) : P (assign o active glob sc c).1 :=
+  assign_pres' hp.place hp.crash active sc c hc
 
 /-! ### scale-down -/
 
-theorem sbiLoop_pres (hp : Pres o P) (i : Nat) :
+theorem sbiLoopX (hp : PresX o Q1 Q2 D P) (hD : D) (i : Nat) :
     ∀ (hs : List Hash) (c : CS) (picks : List Nat), (∀ s, c.shards[i]? = some s → s.changeable = true) →
       P c → P (sbiLoop o i hs c picks).1 := by
   intro hs
@@ -339,17 +494,33 @@ theorem sbiLoop_pres (hp : Pres o P) (i : Nat) :
           split
           · rename_i j picks' hg
             apply ih _ _ (transfer_src_changeable _ c i j h hsrc)
-            apply hp.transfer 3 c i j h hc
             obtain ⟨s2, hs2, hlt, hch, hfit⟩ := getFreeShard_some hg
-            rw [Sites.sbiSpaceHead_eq, Sites.sbiSpaceProc_eq] at hfit
             have hsk := (not_congr (Sites.sbiSkip_iff tar)).mp hskip
             simp only [not_or, Decidable.not_not, Nat.not_lt] at hsk
-            exact ⟨src, s2, tar, hsrc', hs2, htar, hsrc src hsrc', hch, Nat.ne_of_lt hlt, hsk.1, hsk.2,
-              fit_plfits hfit, fun _ => hlt, Or.inr (Or.inr rfl)⟩
+            apply hp.transfer 3 c i j h hc
+            · rw [Sites.sbiSpaceHead_eq, Sites.sbiSpaceProc_eq] at hfit
+              exact ⟨src, s2, tar, hsrc', hs2, htar, hsrc src hsrc', hch, Nat.ne_of_lt hlt, hsk.1, hsk.2,
+                fit_plfits hfit, fun _ => hlt, Or.inr (Or.inr rfl)⟩
+            · intro f tar' hf htar'
+              rw [hsrc'] at hf; cases hf
+              rw [htar] at htar'; cases htar'
+              refine ⟨fun h1 => absurd h1 (by decide), fun h2 => absurd h2 (by decide), fun _ => hD,
+                fun hk j' s' hlt' _ hs'' hch' hfitb => ?_⟩
+              · have hff : Gen.firstFit o = true := by
+                  rcases hk with hk | hk | hk
+                  · exact absurd hk (by decide)
+                  · exact absurd hk (by decide)
+                  · exact hk
+                refine getFreeShard_first hff hg j' s' hlt' hs'' ⟨hch', ?_⟩
+                rw [Sites.fit_iff, Sites.sbiSpaceHead_eq, Sites.sbiSpaceProc_eq]
+                refine ⟨?_, hfitb.2⟩
+                by_cases hz : o.maxHead = 0
+                · exact Or.inl hz
+                · exact Or.inr (hfitb.1 hz)
           · exact hc
           · exact hp.crash c hc
 
-theorem sdLoop_pres (hp : Pres o P) (sc : Sched) :
+theorem sdLoopX (hp : PresX o Q1 Q2 D P) (hD : D) (sc : Sched) :
     ∀ (k : Nat) (c : CS) (picks : List Nat), P c → P (sdLoop o sc k c picks) := by
   intro k
   induction k with
@@ -376,7 +547,7 @@ theorem sdLoop_pres (hp : Pres o P) (sc : Sched) :
             · rename_i hb
               have := (not_congr (Sites.cbiBlocked_iff src.changeable)).mp hb
               simpa using this
-          have := sbiLoop_pres hp (k + 1)
+          have := sbiLoopX hp hD (k + 1)
             (uniq ((orderFor sc.becomeIdle (k + 1)).filter src.scraping.keys.contains)) c picks hch hc
           generalize sbiLoop o (k + 1)
             (uniq ((orderFor sc.becomeIdle (k + 1)).filter src.scraping.keys.contains)) c picks = r at this
@@ -386,10 +557,23 @@ theorem sdLoop_pres (hp : Pres o P) (sc : Sched) :
           · exact this
           · exact ih c' picks' this
 
-theorem tryScaleDown_pres (hp : Pres o P) (sc : Sched) (c : CS) (picks : List Nat) (hc : P c) :
+theorem tryScaleDownX (hp : PresX o Q1 Q2 D P) (hD : D) (sc : Sched) (c : CS) (picks : List Nat) (hc : P c) :
     P (tryScaleDown o sc c picks).2 := by
   unfold tryScaleDown
-  exact sdLoop_pres hp sc _ c picks hc
+  exact sdLoopX hp hD sc _ c picks hc
+
+theorem sbiLoop_pres (hp : Pres o P) (i : Nat) :
+    ∀ (hs : List Hash) (c : CS) (picks : List Nat), (∀ s, c.shards[i]? = some s → s.changeable = true) →
+      P c → P (sbiLoop o i hs c picks).1 :=
+  sbiLoopX (hp.toX (fun _ => True) (fun _ => True) True) trivial i
+
+theorem sdLoop_pres (hp : Pres o P) (sc : Sched) :
+    ∀ (k : Nat) (c : CS) (picks : List Nat), P c → P (sdLoop o sc k c picks) :=
+  sdLoopX (hp.toX (fun _ => True) (fun _ => True) True) trivial sc
+
+theorem tryScaleDown_pres (hp : Pres o P) (sc : Sched) (c : CS) (picks : List Nat) (hc : P c) :
+    P (tryScaleDown o sc c picks).2 :=
+  tryScaleDownX (hp.toX (fun _ => True) (fun _ => True) True) trivial sc c picks hc
 
 end
 
@@ -406,8 +590,11 @@ def stopsEarly (inp : Input) : Bool :=
     && inp.scaleErr1
 
 /-- **lifting**: an invariant of the three placement operations holds of the state a cycle ends in -/
-theorem cycle_pres {P : CS → Prop} (swr : Swr) (sc : Sched) (inp : Input)
-    (hp : PresA inp.opt (globalOf ((inp.probes.map getInfo).map (·.1)) inp.explore) P)
+theorem cycle_presX {P : CS → Prop} {Q1 Q2 : Rt → Prop} {D : Prop} (swr : Swr) (sc : Sched) (inp : Input)
+    (hp : PresAX inp.opt Q1 Q2 D (globalOf ((inp.probes.map getInfo).map (·.1)) inp.explore) P)
+    (hQp : ∀ r, Gen.procTrigger swr inp.opt r = true → Q1 r)
+    (hQh : ∀ r ex, headThreshold swr inp.opt r = some ex → Q2 r)
+    (hD : Gen.scaleDownOn inp.opt = true → D)
     (h0 : P (startCS inp)) (hne : stopsEarly inp = false) :
     P (cycle swr sc inp).cs := by
   unfold stopsEarly at hne
@@ -415,13 +602,13 @@ theorem cycle_pres {P : CS → Prop} (swr : Swr) (sc : Sched) (inp : Input)
   simp only
   split
   · rename_i h; rw [h] at hne; cases hne
-  · have h2 := alleviate_pres hp.toPres swr sc (startCS inp) h0
+  · have h2 := alleviateX hp.toPresX swr hQp hQh sc (startCS inp) h0
     unfold startCS at h2
     generalize alleviate swr inp.opt sc
       { shards := gc inp.opt inp.active ((inp.probes.map getInfo).map (·.1)) } = r2 at h2
     obtain ⟨c2, need1⟩ := r2
     simp only at h2 ⊢
-    have h3 := assign_pres hp inp.active sc c2 h2
+    have h3 := assign_pres' hp.place hp.crash inp.active sc c2 h2
     generalize assign inp.opt inp.active
       (globalOf ((inp.probes.map getInfo).map (·.1)) inp.explore) sc c2 = r3 at h3
     obtain ⟨c3, picks, need2⟩ := r3
@@ -438,7 +625,8 @@ theorem cycle_pres {P : CS → Prop} (swr : Swr) (sc : Sched) (inp : Input)
         · rename_i hcr; simp [hc3] at hcr
         · simpa [e3] using h3
       · split
-        · have h4 := tryScaleDown_pres hp.toPres sc c3 picks h3
+        · rename_i hsd
+          have h4 := tryScaleDownX hp.toPresX (hD hsd) sc c3 picks h3
           generalize tryScaleDown inp.opt sc c3 picks = r4 at h4
           obtain ⟨scale, c4⟩ := r4
           simp only at h4 ⊢
@@ -451,5 +639,12 @@ theorem cycle_pres {P : CS → Prop} (swr : Swr) (sc : Sched) (inp : Input)
         · split
           · rename_i hcr; simp [hc3] at hcr
           · simpa [e3] using h3
+
+theorem cycle_pres {P : CS → Prop} (swr : Swr) (sc : Sched) (inp : Input)
+    (hp : PresA inp.opt (globalOf ((inp.probes.map getInfo).map (·.1)) inp.explore) P)
+    (h0 : P (startCS inp)) (hne : stopsEarly inp = false) :
+    P (cycle swr sc inp).cs :=
+  cycle_presX swr sc inp (hp.toAX (fun _ => True) (fun _ => True) True) (fun _ _ => trivial) (fun _ _ _ => trivial)
+    (fun _ => trivial) h0 hne
 
 end Kvass.Coord
